@@ -202,11 +202,9 @@ impl Drop for ThreadPool {
     fn drop(&mut self) {
         #[cfg(feature = "verif")]
         crate::verif::point("pool.drop.entry");
-        if let Some(mut recovery_thread) = self.recovery_thread.take() {
-            if let Some(thread) = recovery_thread.0.take() {
-                thread.join().unwrap();
-            }
-        }
+        // Detach the recovery thread, exactly as `stop` does. It waits for panic notifications for as long as
+        //   the process lives (it owns a sender to its own channel), so joining it here would block forever.
+        self.recovery_thread = None;
 
         #[cfg(feature = "verif")]
         crate::verif::point("pool.drop.before_lock_threads");
